@@ -66,7 +66,8 @@ impl<TX> SendControler<TX> {
     }
 
     fn return_back(&mut self, flow: u64) {
-        self.sent_data -= flow;
+        // `sent_data` may have been reset by a 0-RTT rejection while the credit was outstanding
+        self.sent_data = self.sent_data.saturating_sub(flow);
         if self.avaliable() > 0 {
             self.tx_wakers.wake_all_by(Signals::FLOW_CONTROL);
         }
@@ -74,6 +75,10 @@ impl<TX> SendControler<TX> {
 
     fn revise_max_data(&mut self, zero_rtt_rejected: bool, max_data: u64) {
         if zero_rtt_rejected {
+            // The peer discarded all 0-RTT data: the streams forget their sent state and
+            // send everything again as fresh data, which is charged again. Keeping the old
+            // `sent_data` would leave it above a smaller new limit and underflow `avaliable`.
+            self.sent_data = 0;
             self.max_data = 0;
             self.flow_limited = false;
         }
